@@ -8,7 +8,7 @@ PROPS = {
     "C33": {
         "harness": "vh-index",
         "gen": ["index_fields"],
-        "level_text": "Kernel-checked theorems, for every configuration, every add/re-add/remove/hide history and every require string, about an executable model of LuaModuleIndex (pattern templates and longest-first order, extract_module_path over several workspace roots, moduleMap rewrite, path-keyed node arena, file_module_map, fuzzy-name map, remove with pruning, find_module exact -> moduleMap -> fuzzy): find_module equals an independent spec resolver over the insertion-ordered set of live (file, module path); exact beats fuzzy with the stated deterministic choice among duplicates; results are live files that match; after remove a file is unresolvable. The model is compared with the real LuaModuleIndex (public API) on generated trees/histories/configs every run, and an independent Rust reference resolver is evaluated against the implementation as the oracle. Also proved: a single-? template selects exactly pre ++ m ++ suf, and ?/init.lua beats ?.lua. Go-to-definition on the require string and the inferred module type (semantic layer on top of find_module) are search-only: on real analysed workspaces parse_require_module_info and the inferred type of the required value are compared with the file the reference resolver selects, before and after removing a file.",
+        "level_text": "Kernel-checked theorems, for every configuration, every add/re-add/remove/hide history and every require string, about an executable model of LuaModuleIndex (pattern templates and longest-first order, extract_module_path over several workspace roots, moduleMap rewrite, path-keyed node arena, file_module_map, fuzzy-name map, remove with pruning, find_module exact -> moduleMap -> fuzzy): find_module equals an independent spec resolver over the insertion-ordered set of live (file, module path); exact beats fuzzy with the stated deterministic choice among duplicates; results are live files that match; after remove a file is unresolvable. The model is compared with the real LuaModuleIndex (public API) on generated trees/histories/configs every run, and an independent Rust reference resolver is evaluated against the implementation as the oracle. Also proved: a single-? template selects exactly pre ++ m ++ suf, and ?/init.lua beats ?.lua; a moduleMap rule of the fragment rewrites exactly pre ++ m ++ suf and the rewritten path is resolved exactly before any fuzzy match (C33_mapped_exact); with several workspace roots the chosen module path is offered by a matching root and is a shortest one (C33_extract_minimal). Go-to-definition on the require string and the inferred module type (semantic layer on top of find_module) are search-only: on real analysed workspaces parse_require_module_info and the inferred type of the required value are compared with the file the reference resolver selects, before and after removing a file.",
         "level_note": "Trusted: Lean kernel, harness/serialisers, the correspondence run as the tie. Modelled: set_module_extract_patterns, match_pattern, extract_module_path, replace_module_path (template fragment), add_module_by_path, add_module_by_module_path, LuaIndex::remove (after fix e70c5d1), set_module_visibility(Hide), find_module, find_module_node. Node ids are abstracted to node paths. Search-only: the semantic layer (parse_require_module_info / module type of `local x = require(...)`).",
         "trusted_base": INDEX_TB,
         "assumptions": [
@@ -33,7 +33,7 @@ PROPS.update({
     "C10": {
         "harness": "vh-index",
         "gen": ["index_fields"],
-        "level_text": "Kernel-checked theorems for all histories of file-tagged mutations about executable models of LuaIndex::remove: module index (no node file list, ModuleInfo or fuzzy list mentions the removed file; all other entries unchanged), per-file maps and global_decl-shaped maps (remove_exact: the state after remove(f) has exactly the lookups, and for keyed maps the entry count, of the state built from the other files' mutations alone). Also proved: remove_exact for nested reference maps, signatures and the metatable map, the exact node arena and entry counts of the module index; for the doc-property index the theorem is false on the current code (witness + partial, open finding) and two member-index witnesses reproduce the open findings in the model. Type / operator / member indexes are modelled and tied (index.sym) but their remove theorems are not proved; beyond the tie they are covered by the oracle: the oracle removes and closes files of generated multi-file workspaces on the real EmmyLuaAnalysis and checks that no result mentions the file, that every per-file map has no entry for it, that add-then-remove of a probe file restores the full observable dump and does not grow any entry count of DbIndex::verif_report, and that removing everything empties every map.",
+        "level_text": "Kernel-checked theorems for all histories of file-tagged mutations about executable models of LuaIndex::remove: module index (no node file list, ModuleInfo or fuzzy list mentions the removed file; all other entries unchanged), per-file maps and global_decl-shaped maps (remove_exact: the state after remove(f) has exactly the lookups, and for keyed maps the entry count, of the state built from the other files' mutations alone). Also proved: remove_exact for nested reference maps, signatures and the metatable map, the exact node arena and entry counts of the module index; for the doc-property index the theorem is false on the current code (witness + partial, open finding) and two member-index witnesses reproduce the open findings in the model. Type / operator / member indexes (Index.Sym, tied by index.sym): proved remove_exact for the type declaration locations and (when a file adds super types only to types it declares) the super types - the partial-class case -, for the operators map, for the members map and for the cached owner types (types / in_filed_type_owner, first bind_type wins); C10_full_partial: for every history in which each documented owner gets its doc properties from one file (decidable predicate, the complement of the doc-property finding inside the model) remove_exact holds on every map of the Db model incl. get_property. Not proved: type_operators_map, owner_members / member_current_owner (order dependent; two witnesses), name maps. Beyond the tie these are covered by the oracle: the oracle removes and closes files of generated multi-file workspaces on the real EmmyLuaAnalysis and checks that no result mentions the file, that every per-file map has no entry for it, that add-then-remove of a probe file restores the full observable dump and does not grow any entry count of DbIndex::verif_report, and that removing everything empties every map.",
         "level_note": "Trusted: Lean kernel, harness, the two correspondence runs (index.mod, index.db) as the tie. Theorems cover the index data structures, not the analyzers that feed them. Open findings are keyed by an input predicate AND the symptom kinds their root cause explains (type-in-several-files/doc-property, class-bound-to-required-table/member-reowning); any other differing observable in such a workspace (super types, member lists, other diagnostics, other entry counts) is reported as a violation.",
         "trusted_base": LIFE_TB,
         "assumptions": LIFE_ASSUME,
@@ -41,7 +41,7 @@ PROPS.update({
     "C08": {
         "harness": "vh-index",
         "gen": ["index_fields"],
-        "level_text": "Kernel-checked theorems for all histories about the same models as C10: update(f) = remove + contributions leaves exactly the state that the other files' mutations followed by f's contributions build (update_exact for per-file, global_decl-shaped, nested reference and id-owned maps), hence re-submission is the identity whenever f's contributions are already last (readd_identity: every second re-submission, edit+restore after a re-submission); module index: re-submission idempotent and edit+restore = one re-submission at the level of the live set, hence (C33) of every require resolution. The doc-property index violates the law on the current code (witness, open finding). Everything that depends on the analyzers (which contributions a file makes given the others) is search-only: the oracle re-submits unchanged files and edit/restore pairs from a batch analysis or a reindex of generated multi-file workspaces and compares the full observable dump (diagnostics, per-token type/definition/hover doc, modules, require resolution, globals, types with members) and requires that no entry count of DbIndex::verif_report grows.",
+        "level_text": "Kernel-checked theorems for all histories about the same models as C10: update(f) = remove + contributions leaves exactly the state that the other files' mutations followed by f's contributions build (update_exact for per-file, global_decl-shaped, nested reference and id-owned maps, and for type declaration locations / super types of partial classes, the operators map and the members map; C08_full_partial: readd_identity on every map of the Db model incl. get_property when each documented owner gets its doc properties from one file), hence re-submission is the identity whenever f's contributions are already last (readd_identity: every second re-submission, edit+restore after a re-submission); module index: re-submission idempotent and edit+restore = one re-submission at the level of the live set, hence (C33) of every require resolution. The doc-property index violates the law on the current code (witness, open finding). Everything that depends on the analyzers (which contributions a file makes given the others) is search-only: the oracle re-submits unchanged files and edit/restore pairs from a batch analysis or a reindex of generated multi-file workspaces and compares the full observable dump (diagnostics, per-token type/definition/hover doc, modules, require resolution, globals, types with members) and requires that no entry count of DbIndex::verif_report grows.",
         "level_note": "Trusted: Lean kernel, harness, correspondence runs. A first re-submission moves a file's items to the end of shared vectors (proved exact law); the oracle treats multi-location definition lists as sets. Open findings are keyed by an input predicate AND symptom kinds (type-in-several-files/doc-property, global-in-several-files/analysis-order, class-bound-to-required-table/member-reowning); every other differing observable is reported as a violation.",
         "trusted_base": LIFE_TB,
         "assumptions": LIFE_ASSUME,
